@@ -305,6 +305,9 @@ def model_ok(model, constraints):
             if e.sort() == _STR: sub.append((e, z3.StringVal(model.d.get(n, ''))))
             elif e.sort() == z3.IntSort(): sub.append((e, z3.IntVal(model.d.get(n, 0))))
             elif e.sort() == z3.BoolSort(): sub.append((e, z3.BoolVal(bool(model.d.get(n, False)))))
+        if os.environ.get('PYVC_DEBUG_BADMODEL'):
+            for c in constraints:
+                if not z3.is_true(z3.simplify(z3.substitute(c, *sub))): print('BADMODEL', c.sexpr()[:400], '->', z3.simplify(z3.substitute(c, *sub)).sexpr()[:300], {k: v for k, v in model.d.items()}, flush=True); break
         return all(z3.is_true(z3.simplify(z3.substitute(c, *sub))) for c in constraints)
     except Exception:
         return False
@@ -392,7 +395,9 @@ def _solve(constraints, want_model=False, budget_s=None, label=''):
     if os.environ.get('PYVC_FORCE_CVC5') and want_model: r = z3.unknown     # test hook: exercise the cvc5 model path
     if r == z3.sat: return 'sat', (Model(zm=sol.model()) if want_model else None), 'z3'
     if r == z3.unsat: return 'unsat', None, 'z3'
-    smt = sol.to_smt2()
+    fresh_ = z3.Solver()            # printed from a solver that has not run: check() may eliminate solved variables (x = "lit") from sol's assertions,
+    for c in constraints: fresh_.add(c)   # and a model of the reduced text then misses them
+    smt = fresh_.to_smt2()
     t = time.time()
     try:
         first, out = _cvc5_api(smt, want_model, budget_s)
@@ -402,7 +407,9 @@ def _solve(constraints, want_model=False, budget_s=None, label=''):
     if os.environ.get('PYVC_SLOW') and time.time() - t > float(os.environ['PYVC_SLOW']):
         print('SLOW-CVC5', label, first, round(time.time() - t, 2), 'n=', len(constraints), sol.sexpr()[-int(os.environ.get('PYVC_SLOWN', '600')):], flush=True)
     if first == 'unsat': return 'unsat', None, 'cvc5'
-    if first == 'sat': return 'sat', (Model(d=_parse_cvc5_model(out)) if want_model else None), 'cvc5'
+    if first == 'sat':
+        if os.environ.get('PYVC_DEBUG_BADMODEL') and want_model: open('/tmp/lastcvc5.txt', 'w').write(smt + '\n;;;;\n' + out)
+        return 'sat', (Model(d=_parse_cvc5_model(out)) if want_model else None), 'cvc5'
     sol2 = z3.Solver(); sol2.set('timeout', int(budget_s * 1000))
     for c in constraints: sol2.add(c)
     t2 = time.time(); r2 = sol2.check(); STATS['z3'] += 1; STATS['z3_t'] += time.time() - t2
